@@ -418,6 +418,12 @@ func runFsCallVia(pool *wproto.Pool, s *fsState, c *tok.Conc, massive, alias boo
 	}
 	// the target directory is handed over in one of six spellings of the same path (five of them relative)
 	rq.TargetSpell = []string{"", "slash", "dot", "dslash", "dotin", "dotdot"}[s.N%6]
+	if massive {
+		// the relative spellings need the worker to change its directory for the duration of the call; goroutines of a
+		// failed or cancelled massive call may still be creating directories when it has returned and the directory
+		// has been changed back: massive calls get the plain absolute spelling
+		rq.TargetSpell = ""
+	}
 	o := &fsOutcome{before: j.snapshot(), jailRoot: j.root, req: rq, ancBefore: j.ancestors()}
 	o.rp = pool.Call(rq, 30*time.Second)
 	o.after = j.snapshot()
